@@ -107,13 +107,21 @@ def _jade_argv(s: str, ajn: bool, aod: bool):
     cmd = AsyncCliCommand(job, cli, _OUT, 1, True, "9")
     seen = []
     real = subprocess.Popen
-    subprocess.Popen = lambda argv, **kw: (seen.append(list(argv)), _P())[1]
+    fake = lambda argv, *a, **kw: (seen.append(list(argv)), _P())[1]  # noqa: E731
+    subprocess.Popen = fake
+    # also names bound with `from subprocess import Popen` in JADE's modules (import style is not part of the property)
+    rebound = [(m, k) for n, m in list(sys.modules.items()) if n.startswith("jade") and m is not None
+               for k, v in list(vars(m).items()) if v is real]
+    for m, k in rebound:
+        setattr(m, k, fake)
     try:
         cmd.run()
     except ValueError:
         return None
     finally:
         subprocess.Popen = real
+        for m, k in rebound:
+            setattr(m, k, real)
         for fp in (cmd._stdout_fp, cmd._stderr_fp):
             if fp is not None:
                 fp.close()
